@@ -707,8 +707,25 @@ def rule_writers(ctx, R="R-C16-W"):
                 elif not any(e[0] == "MidiFile.write_file" for e in log):
                     ok, why = False, "nothing is written"
                 elif wname == "write_Composition":
+                    # every composition track is played, whole, repeat + 1 times into a MidiTrack of its own, and the file
+                    # holds those MidiTracks in the order of the composition's tracks (in which order they are filled --
+                    # round by round or track by track -- is the writer's business)
                     plays = [e for e in log if e[0] == "MidiTrack.play_Track"]
-                    per_round = plays[:2]
-                    if per_round[0][1][0] is per_round[1][1][0] or [getattr(e[1][1], "tag", None) for e in per_round] != ["trackA", "trackB"]:
-                        ok, why = False, "each composition track must be written into its own MidiTrack, in order"
+                    groups = []
+                    for e in plays:
+                        for g in groups:
+                            if g[0] is e[1][0]:
+                                g[1].append(getattr(e[1][1], "tag", None))
+                                break
+                        else:
+                            groups.append((e[1][0], [getattr(e[1][1], "tag", None)]))
+                    wf_call = [e for e in log if e[0] == "MidiFile.write_file"][-1]
+                    mfile = wf_call[1][0]
+                    in_file = mfile.attrs.get("tracks") if isinstance(mfile, AObj) else None
+                    by_obj = {id(g[0]): g[1] for g in groups}
+                    if any(len(set(tags)) != 1 or len(tags) != repeat + 1 for _o, tags in groups):
+                        ok, why = False, "a MidiTrack receives %s: each must receive one composition track, %d times" % ([t for _o, t in groups], repeat + 1)
+                    elif not isinstance(in_file, list) or [by_obj.get(id(x), [None])[0] for x in in_file] != ["trackA", "trackB"]:
+                        ok, why = False, "the file's tracks hold %s, expected the composition's tracks in order, each in a MidiTrack of its own" % (
+                            [by_obj.get(id(x)) for x in in_file] if isinstance(in_file, list) else in_file,)
             ctx.check(ok, R, "%s[repeat=%d]" % (wname, repeat), wf.where(), "%s(file, music, 150, %d)" % (wname, repeat), why)
